@@ -292,7 +292,7 @@ class SimplePathStrategy(object):
                     # if element is not first in fragment it has to be
                     # the same as previous one
                     # for example child::a/self::b is always wrong
-                    if axis[1] != fragment[-1][1]:
+                    if not nodes_equal(axis[1], fragment[-1]):
                         self.fragments = None
                         return
                 else:
@@ -325,7 +325,7 @@ class SimplePathStrategy(object):
         stack_push = stack.append
         stack_pop = stack.pop
         frags = self.fragments
-        frags_len = len(frags)
+        frags_len = len(frags or ())
 
         def _test(event, namespaces, variables, updateonly=False):
             # expression found impossible during init
